@@ -284,7 +284,7 @@ theorem readAll_go : ∀ (reads : List Read) (a : A) (s sQ : State) (E : List Ev
     ((∀ u, Ev.rd u ∉ E) ∧ readAll cfg reads s = s ∧ (∀ rd ∈ reads, s.find rd.uid = none)) ∨
     ((Spec.splitRd E).1 = [] ∧ (Spec.splitRd E).2 ≠ [] ∧
       Inv cfg (Spec.roundBody.go cfg a reads (Spec.splitRd E).2 fuel) sQ ∧
-      (∀ p ∈ proven, Spec.NoErr p a → Spec.NoErr p (Spec.roundBody.go cfg a reads (Spec.splitRd E).2 fuel)))
+      (∀ p ∈ provenCore, Spec.NoErr p a → Spec.NoErr p (Spec.roundBody.go cfg a reads (Spec.splitRd E).2 fuel)))
   | [], a, s, sQ, E, fuel, inv, _, _, q, he => by
     left
     obtain ⟨E', hE', hno, _⟩ := q.nest.ext
@@ -330,9 +330,9 @@ theorem readAll_go : ∀ (reads : List Read) (a : A) (s sQ : State) (E : List Ev
       -- the C14 origin check only appends error entries
       have invN : ∀ evs', Inv cfg (Spec.preSeg cfg a rd evs') s := fun evs' =>
         ⟨sim_coreExt inv.sim (Spec.preSeg_ext cfg a rd evs').core, inv.top, inv.j, inv.t⟩
-      have errN : ∀ evs' p, p ∈ proven → Spec.NoErr p a → Spec.NoErr p (Spec.preSeg cfg a rd evs') :=
+      have errN : ∀ evs' p, p ∈ provenCore → Spec.NoErr p a → Spec.NoErr p (Spec.preSeg cfg a rd evs') :=
         fun evs' p hp hn => (Spec.preSeg_ext cfg a rd evs').noErr (fun h => proven_not hp (by
-          simp only [List.mem_singleton] at h; subst h; simp [others])) hn
+          simp only [List.mem_singleton] at h; subst h; simp [othersCore])) hn
       -- the abstract state after this frame alone
       have tt1 : T (readOne cfg s rd) :=
         T_of_A inv.t (ta_readOne ok hmt (ordOK_of_perm hperm) hfuel inv.top rd).2
@@ -642,13 +642,13 @@ theorem coreExt_withW {T : List String} {a b : A} (h : Spec.CoreExt T a b) (w : 
   ⟨h.mods, h.buf, h.fail, rfl, h.nAccepted, h.errs⟩
 
 theorem goStart_ext (cfg : Cfg) (aP : A) (wNew : List Nat) (pre : List Ev) :
-    ∃ X, Spec.CoreExt ("C07" :: others) ({ aP with w := wNew } : A) X ∧ goStart cfg aP wNew pre = Spec.applyDepartures X pre := by
-  have h : Spec.CoreExt ("C07" :: others) aP (Spec.checkDepartures cfg (Spec.checkNoticeOrigin cfg
+    ∃ X, Spec.CoreExt ("C07" :: othersCore) ({ aP with w := wNew } : A) X ∧ goStart cfg aP wNew pre = Spec.applyDepartures X pre := by
+  have h : Spec.CoreExt ("C07" :: othersCore) aP (Spec.checkDepartures cfg (Spec.checkNoticeOrigin cfg
       (aP.chk ((Spec.closes pre).isEmpty || !(Spec.wfails pre).isEmpty) "C07"
         "a connection was closed before any frame was read in this round") none pre) none pre) :=
     (((Spec.errExt_chk ["C07"] aP _ "C07" _ (by simp)).mono (by simp)).core.trans
-      ((Spec.checkNoticeOrigin_ext cfg _ none pre).mono (by simp [others])).core).trans
-      ((Spec.checkDepartures_ext cfg _ none pre).mono (by simp [others])).core
+      ((Spec.checkNoticeOrigin_ext cfg _ none pre).mono (by simp [othersCore])).core).trans
+      ((Spec.checkDepartures_ext cfg _ none pre).mono (by simp [othersCore])).core
   exact ⟨_, coreExt_withW h wNew, by unfold goStart; exact (applyDepartures_withW _ wNew pre).symm⟩
 
 /-- the C07 clauses of the stretch before the first frame read hold once `checkDepartures` adds at most C14 entries on
@@ -674,13 +674,13 @@ theorem goStart_c07 {cfg : Cfg} {aP : A} (wNew : List Nat) (pre : List Ev)
   exact noErr_applyDepartures pre (hDD.noErr (by simp) (hN.noErr (by simp) hn))
 
 theorem goStartU_ext (cfg : Cfg) (aP : A) (wNew : List Nat) (wU : Option (List Nat)) (pre : List Ev) :
-    ∃ X, Spec.CoreExt ("C07" :: others) ({ aP with w := wNew } : A) X ∧ goStartU cfg aP wNew wU pre = Spec.applyDepartures X pre := by
-  have h : Spec.CoreExt ("C07" :: others) aP (Spec.checkDeparturesAny cfg (Spec.checkNoticeOrigin cfg
+    ∃ X, Spec.CoreExt ("C07" :: othersCore) ({ aP with w := wNew } : A) X ∧ goStartU cfg aP wNew wU pre = Spec.applyDepartures X pre := by
+  have h : Spec.CoreExt ("C07" :: othersCore) aP (Spec.checkDeparturesAny cfg (Spec.checkNoticeOrigin cfg
       (aP.chk ((Spec.closes pre).isEmpty || !(Spec.wfails pre).isEmpty) "C07"
         "a connection was closed before any frame was read in this round") none pre) wU none pre) :=
     (((Spec.errExt_chk ["C07"] aP _ "C07" _ (by simp)).mono (by simp)).core.trans
-      ((Spec.checkNoticeOrigin_ext cfg _ none pre).mono (by simp [others])).core).trans
-      ((Spec.checkDeparturesAny_ext cfg _ wU none pre).mono (by simp [others])).core
+      ((Spec.checkNoticeOrigin_ext cfg _ none pre).mono (by simp [othersCore])).core).trans
+      ((Spec.checkDeparturesAny_ext cfg _ wU none pre).mono (by simp [othersCore])).core
   exact ⟨_, coreExt_withW h wNew, by unfold goStartU; exact (applyDepartures_withW _ wNew pre).symm⟩
 
 theorem goStartU_c07 {cfg : Cfg} {aP : A} (wNew : List Nat) (wU : Option (List Nat)) (pre : List Ev)
@@ -709,10 +709,10 @@ theorem goStartU_c07 {cfg : Cfg} {aP : A} (wNew : List Nat) (wU : Option (List N
     exact noErr_applyDepartures pre (hDD.noErr (by simp) (hN.noErr (by simp) hn))
 
 theorem roundEnd_ext (cfg : Cfg) (a : A) (pre : List Ev) (segs : List (Nat × List Ev)) :
-    Spec.CoreExt others a (roundEnd cfg a pre segs) := by
+    Spec.CoreExt othersCore a (roundEnd cfg a pre segs) := by
   unfold roundEnd
   extract_lets b lastEvs
-  have hb : Spec.CoreExt others a b := by
+  have hb : Spec.CoreExt othersCore a b := by
     simp only [b]; split
     · exact Spec.CoreExt.refl _ _
     · exact core_others (Spec.coreExt_foldl [] _ (fun x y => Spec.noteMgrFrames_ext cfg x y) _ _) (by simp)
@@ -1007,7 +1007,7 @@ proved property was reported violated. -/
 theorem round_ok {a : A} {s : State} (inv : Inv cfg a s) (r : Round) (hwf : RoundWF r) (evs : List Ev)
     (he : (step cfg s r).out = s.out ++ evs) :
     Inv cfg (Spec.round cfg a r evs) (step cfg s r) ∧
-    (∀ p ∈ proven, Spec.NoErr p a → Spec.NoErr p (Spec.round cfg a r evs)) := by
+    (∀ p ∈ provenCore, Spec.NoErr p a → Spec.NoErr p (Spec.round cfg a r evs)) := by
   have hord : OrdOK cfg := ordOK_of_perm hperm
   have hall : OrdAll cfg := OrdAll_of_perm hperm
   have tStep : T (step cfg s r) := step_T ok hmt hord hfuel inv.top inv.t r
@@ -1047,7 +1047,7 @@ theorem round_ok {a : A} {s : State} (inv : Inv cfg a s) (r : Round) (hwf : Roun
   obtain ⟨X0, hX0, hgs0⟩ := goStart_ext cfg (preAcc a r) (preW a r) eAcc
   have inv0 : Inv cfg (goStart cfg (preAcc a r) (preW a r) eAcc) sP := by
     rw [hgs0]; exact ⟨sim_coreExt hsP (Spec.applyDepartures_coreExt hX0 eAcc), tP, jP, tPre⟩
-  have herr0 : ∀ p ∈ proven, Spec.NoErr p a → Spec.NoErr p (goStart cfg (preAcc a r) (preW a r) eAcc) := by
+  have herr0 : ∀ p ∈ provenCore, Spec.NoErr p a → Spec.NoErr p (goStart cfg (preAcc a r) (preW a r) eAcc) := by
     intro p hp hn
     have hn3 : Spec.NoErr p (preAcc a r) := by unfold Spec.NoErr; rw [herrs']; exact hn
     by_cases h7 : p = "C07"
@@ -1076,7 +1076,7 @@ theorem round_ok {a : A} {s : State} (inv : Inv cfg a s) (r : Round) (hwf : Roun
     rw [preSt_nil]
     generalize hwP : (preAcc a r).w.filter ((preW a r).contains ·) = wP
     obtain ⟨X, hX, hgs⟩ := goStartU_ext cfg ({ preAcc a r with w := wP } : A) (preW a r) (preU a r []) evs
-    have hX' : Spec.CoreExt ("C07" :: others) ({ preAcc a r with w := preW a r } : A) X := hX
+    have hX' : Spec.CoreExt ("C07" :: othersCore) ({ preAcc a r with w := preW a r } : A) X := hX
     have hsimA : SimM cfg (Spec.applyDepartures ({ preAcc a r with w := preW a r } : A) evs) (ticks cfg (readAll cfg reads sP)) := by
       rw [hevs, ← applyDepartures_append]
       have hn : Nest sP (ticks cfg (readAll cfg reads sP)) := by rw [hid]; exact ticks_nest cfg sP
@@ -1095,7 +1095,7 @@ theorem round_ok {a : A} {s : State} (inv : Inv cfg a s) (r : Round) (hwf : Roun
     have hgo := go_dead cfg reads (goStartU cfg ({ preAcc a r with w := wP } : A) (preW a r) (preU a r []) evs) (reads.length + 1) hdead
     have hend := roundEnd_ext cfg (Spec.roundBody.go cfg (goStartU cfg ({ preAcc a r with w := wP } : A) (preW a r) (preU a r []) evs) reads []
       (reads.length + 1)) evs []
-    have hallE : Spec.CoreExt others (goStartU cfg ({ preAcc a r with w := wP } : A) (preW a r) (preU a r []) evs)
+    have hallE : Spec.CoreExt othersCore (goStartU cfg ({ preAcc a r with w := wP } : A) (preW a r) (preU a r []) evs)
         (roundEnd cfg (Spec.roundBody.go cfg (goStartU cfg ({ preAcc a r with w := wP } : A) (preW a r) (preU a r []) evs) reads []
           (reads.length + 1)) evs []) := by rw [hgo] at hend ⊢; exact hend
     refine ⟨⟨sim_coreExt hsimT hallE, q.top, q.j, q.t⟩, fun p hp hn => hallE.noErr (proven_not hp) ?_⟩
@@ -1246,7 +1246,7 @@ include hperm
 /-- the rounds of a history, one after the other -/
 theorem rounds_ok : ∀ (rs : List Round) (a : A) (s : State), Inv cfg a s → RoundsWF rs →
     Inv cfg ((List.zip rs (modelRounds cfg s rs)).foldl (fun a p => Spec.round cfg a p.1 p.2) a) (rs.foldl (step cfg) s) ∧
-    (∀ p ∈ proven, Spec.NoErr p a →
+    (∀ p ∈ provenCore, Spec.NoErr p a →
       Spec.NoErr p ((List.zip rs (modelRounds cfg s rs)).foldl (fun a p => Spec.round cfg a p.1 p.2) a)) ∧
     s.out ++ (modelRounds cfg s rs).flatten = (rs.foldl (step cfg) s).out
   | [], a, s, inv, _ => ⟨inv, fun _ _ h => h, by simp [modelRounds]⟩
@@ -1274,11 +1274,11 @@ theorem adjacent_of_sorted : ∀ (l : List Nat), l.Pairwise (· ≤ ·) → (l.z
 
 /-- **The model meets the Spec, for the proved properties.**  Run the model on any well-formed history, hand the Spec
 the history and the events the model wrote, round by round: the Spec's verdict contains no entry for a property in
-`proven` (for C05: on histories whose frames carry their serial numbers in processing order, `IncRounds` — the serial
+`provenCore` (for C05: on histories whose frames carry their serial numbers in processing order, `IncRounds` — the serial
 number is the label by which the Spec recognises the copies of a frame) — and its abstract state at the end simulates
 the model's final state. -/
-theorem model_meets_spec_proven (rs : List Round) (hwf : RoundsWF rs) :
-    ∀ p ∈ proven, (p = "C05" → IncRounds 0 rs) → Spec.NoErr p (Spec.runSpec cfg rs (modelObs cfg rs) none) := by
+theorem model_meets_spec_core (rs : List Round) (hwf : RoundsWF rs) :
+    ∀ p ∈ provenCore, (p = "C05" → IncRounds 0 rs) → Spec.NoErr p (Spec.runSpec cfg rs (modelObs cfg rs) none) := by
   intro p hp hinc
   have hord : OrdOK cfg := ordOK_of_perm hperm
   have hallO : OrdAll cfg := OrdAll_of_perm hperm
@@ -1302,7 +1302,7 @@ theorem model_meets_spec_proven (rs : List Round) (hwf : RoundsWF rs) :
     intro u; rw [hall]
     exact nothing_after_fail (run_J cfg rs) (run_adj ok hallO hfuel rs) u
   refine (Spec.checkNoNotice_ext cfg _ _).noErr (fun h => hnot ?_) ?_
-  · simp only [List.mem_singleton] at h; subst h; simp [others]
+  · simp only [List.mem_singleton] at h; subst h; simp [othersCore]
   by_cases h5 : p = "C05"
   · -- every clause of `checkC05`: counts 1, 2, 3, …; per-sender order; same relative order at any two receivers
     have hi := hinc h5
